@@ -311,6 +311,24 @@ func (d c08) Execute(c *core.Case) *core.Result {
 						}
 					}
 				}
+				// attribution: the cache remembers the entry the actor's last successful full
+				// verification reached and resumes there; was an entry at or before it revoked since?
+				if cp, ok := checkpoint[vop.Ref]; ok && cur != "" && vop.Mode == "full" {
+					if e, ok := w.ByOp[cp]; ok {
+						p := posOf(w, e.ID)
+						for j := checkpointLen[vop.Ref]; j < len(w.Entries) && p >= 0; j++ {
+							a := w.Entries[j]
+							if a.Kind != "annotation" || !a.Skip {
+								continue
+							}
+							for _, t := range a.Targets {
+								if q := posOf(w, t); q >= 0 && q <= p && w.Entries[q].Ref == vop.Ref {
+									feat = append(feat, "entry-before-cached-last-verified-revoked-afterwards")
+								}
+							}
+						}
+					}
+				}
 				res.Violate("C08", class, fmt.Sprintf("%s verification of %s by the caching actor returned %s (tip %s, %s); a cache-less fresh process on the same log returns %s (tip %s, %s) [cache ref %s, index complete up to log length %d, log length now %d]", vop.Mode, vop.Ref, v.Class, short10(v.Tip), v.Err, tv.Class, short10(tv.Tip), tv.Err, short10(cur), cacheLogLen, len(w.Entries)), op.ID, feat...)
 				return res
 			}
